@@ -113,6 +113,18 @@ func (w *namedWorld) live() []string {
 	return out
 }
 
+// liveTimeout is live() that gives up when the registry's mutex is never released
+func (w *namedWorld) liveTimeout(d time.Duration) ([]string, bool) {
+	ch := make(chan []string, 1)
+	go func() { ch <- w.live() }()
+	select {
+	case l := <-ch:
+		return l, true
+	case <-time.After(d):
+		return nil, false
+	}
+}
+
 func eqStrs(a, b []string) bool {
 	if len(a) != len(b) {
 		return false
@@ -210,6 +222,9 @@ func replayNamedPath(p namedPath) (res replayResult) {
 			return fail(i, "infra", "", "unknown action %q", st.Act)
 		}
 		if err != nil {
+			if err == errStepTimeout {
+				return fail(i, "blocked", "blocked", "%s(%d,%q): the real code neither returned nor reached its next lock region within 30 s", st.Act, st.ID, name)
+			}
 			return fail(i, "infra", "", "%s(%d): %v", st.Act, st.ID, err)
 		}
 		if n.panic != nil {
@@ -255,7 +270,11 @@ func replayNamedPath(p namedPath) (res replayResult) {
 		}
 		want := append([]string{}, st.Live...)
 		sort.Strings(want)
-		if got := w.live(); !eqStrs(got, want) {
+		got, alive := w.liveTimeout(30 * time.Second)
+		if !alive {
+			return fail(i, "blocked", "blocked", "after %s(%d,%q): Dump() of the registry did not return within 30 s", st.Act, st.ID, name)
+		}
+		if !eqStrs(got, want) {
 			return fail(i, "mismatch", "registry", "after %s(%d,%q): registry holds %v; spec %v", st.Act, st.ID, name, got, want)
 		}
 	}
